@@ -602,6 +602,25 @@ func c01AttrLen(m modeling.Mesh) int {
 	return m.AttributeLength()
 }
 
+func c01NoAttrs(m modeling.Mesh) bool {
+	return len(m.Float1Attributes())+len(m.Float2Attributes())+len(m.Float3Attributes())+len(m.Float4Attributes()) == 0
+}
+
+// length of one named attribute (what the attribute-replacing operations size their result by)
+func c01LenOf(m modeling.Mesh, kind int, at string) int {
+	switch {
+	case kind == 0 && m.HasFloat1Attribute(at):
+		return m.Float1Attribute(at).Len()
+	case kind == 1 && m.HasFloat2Attribute(at):
+		return m.Float2Attribute(at).Len()
+	case kind == 2 && m.HasFloat3Attribute(at):
+		return m.Float3Attribute(at).Len()
+	case kind == 3 && m.HasFloat4Attribute(at):
+		return m.Float4Attribute(at).Len()
+	}
+	return 0
+}
+
 func (h *c01Hist) v3Attr(m modeling.Mesh) (string, bool) {
 	a := m.Float3Attributes()
 	if len(a) == 0 {
@@ -678,7 +697,7 @@ func (h *c01Hist) apply(name string) (res []c01Result, ok bool) {
 		a := h.pick()
 		m := h.pool[a]
 		n := c01AttrLen(m)
-		if n == 0 {
+		if c01NoAttrs(m) {
 			n = rng.Intn(4)
 		}
 		names := []string{"Position", "Extra"}[:1+rng.Intn(2)]
@@ -729,7 +748,7 @@ func (h *c01Hist) apply(name string) (res []c01Result, ok bool) {
 		a := h.pick()
 		m := h.pool[a]
 		n := c01AttrLen(m)
-		if n == 0 && name == "setattr" {
+		if c01NoAttrs(m) && name == "setattr" {
 			n = rng.Intn(4)
 		}
 		if name == "setattr.delete" {
@@ -804,7 +823,7 @@ func (h *c01Hist) apply(name string) (res []c01Result, ok bool) {
 				out = m.ModifyFloat3Attribute(at, f)
 			}
 		}
-		return one(out, fmt.Sprintf("setattr %d %s %d 0", kind, at, c01AttrLen(m)), a), true
+		return one(out, fmt.Sprintf("setattr %d %s %d 0", kind, at, c01LenOf(m, kind, at)), a), true
 	case "translate", "scale", "rotate", "applytrs":
 		a := h.pickWhere(hasPos)
 		if a < 0 || rng.Intn(15) == 0 {
@@ -822,7 +841,7 @@ func (h *c01Hist) apply(name string) (res []c01Result, ok bool) {
 			}
 			return m.ApplyTRS(trs.New(vector3.New(1., 0., 0.), quaternion.FromTheta(0.5, vector3.Right[float64]()), vector3.New(1., 2., 3.)))
 		}
-		return re(f, fmt.Sprintf("setattr 2 %s %d 0", modeling.PositionAttribute, c01AttrLen(m)), a), true
+		return re(f, fmt.Sprintf("setattr 2 %s %d 0", modeling.PositionAttribute, c01LenOf(m, 2, modeling.PositionAttribute)), a), true
 	case "copyattr":
 		a := h.pick()
 		// keep the pool well-formed (one attribute length per mesh): the source has the receiver's length
@@ -960,7 +979,7 @@ func (h *c01Hist) apply(name string) (res []c01Result, ok bool) {
 			}
 			return meshops.SmoothNormalsImplicitWeld(m, 0.01)
 		}
-		return re(f, fmt.Sprintf("setattr 2 %s %d 0", modeling.NormalAttribute, c01AttrLen(m)), a), true
+		return re(f, fmt.Sprintf("setattr 2 %s %d 0", modeling.NormalAttribute, c01LenOf(m, 2, modeling.PositionAttribute)), a), true
 	case "laplacian", "center", "normalize", "meshops.translate", "meshops.scale", "meshops.rotate", "vertexcolorspace":
 		a := h.pickWhere(func(m modeling.Mesh) bool { return len(m.Float3Attributes()) > 0 })
 		if a < 0 {
@@ -988,7 +1007,7 @@ func (h *c01Hist) apply(name string) (res []c01Result, ok bool) {
 		default:
 			out = meshops.VertexColorSpace(m, at, meshops.VertexColorSpaceSRGBToLinear)
 		}
-		return one(out, fmt.Sprintf("setattr 2 %s %d 0", at, c01AttrLen(m)), a), true
+		return one(out, fmt.Sprintf("setattr 2 %s %d 0", at, c01LenOf(m, 2, at)), a), true
 	case "scalealongnormal":
 		a := h.pickWhere(func(m modeling.Mesh) bool { return hasPos(m) && m.HasFloat3Attribute(modeling.NormalAttribute) })
 		if a < 0 {
@@ -996,7 +1015,7 @@ func (h *c01Hist) apply(name string) (res []c01Result, ok bool) {
 		}
 		m := h.pool[a]
 		out := meshops.ScaleAttributeAlongNormal(m, modeling.PositionAttribute, modeling.NormalAttribute, 0.5)
-		return one(out, fmt.Sprintf("setattr 2 %s %d 0", modeling.PositionAttribute, c01AttrLen(m)), a), true
+		return one(out, fmt.Sprintf("setattr 2 %s %d 0", modeling.PositionAttribute, c01LenOf(m, 2, modeling.PositionAttribute)), a), true
 	case "transform.chain":
 		a := h.pickWhere(func(m modeling.Mesh) bool { return isTri(m) && hasPos(m) })
 		if a < 0 {
@@ -1019,7 +1038,7 @@ func (h *c01Hist) apply(name string) (res []c01Result, ok bool) {
 		for i := range ts {
 			ts[i] = trs.Position(vector3.New(float64(i), 0., 0.))
 		}
-		return one(repeat.Mesh(h.pool[a], ts), fmt.Sprintf("repeat %d %d", k, c01AttrLen(h.pool[a])), a), true
+		return one(repeat.Mesh(h.pool[a], ts), fmt.Sprintf("repeat %d %d", k, c01LenOf(h.pool[a], 2, modeling.PositionAttribute)), a), true
 	case "write.ply":
 		a := h.pick()
 		f := []ply.Format{ply.ASCII, ply.BinaryLittleEndian, ply.BinaryBigEndian}[rng.Intn(3)]
